@@ -90,7 +90,8 @@ fn get_locale_from_path<L: Locale>(path: &str, base_path: &str) -> Option<L> {
     L::get_all()
         .iter()
         .copied()
-        .find(|l| stripped_path.starts_with(l.as_str()))
+        // the locale prefix is a whole path segment: "/english" does not name the locale "en"
+        .find(|l| stripped_path.split('/').next() == Some(l.as_str()))
 }
 
 fn construct_path_segments<'b, 'p: 'b>(
@@ -178,10 +179,10 @@ fn get_new_path<L: Locale>(
             let path_rest = match locale {
                 None => path_rest,
                 Some(l) => {
-                    if let Some(path_rest) = path_rest.strip_prefix(l.as_str()) {
-                        path_rest
-                    } else {
-                        path_rest // Should happen only if l == L::default()
+                    // only strip a whole segment: "english/foo" does not start with the locale "en"
+                    match path_rest.strip_prefix(l.as_str()) {
+                        Some(rest) if rest.is_empty() || rest.starts_with('/') => rest,
+                        _ => path_rest, // Should happen only if l == L::default()
                     }
                 }
             };
